@@ -6,5 +6,6 @@ import Ymq.Props.C14
 #print axioms Ymq.C14.gauss_count
 #print axioms Ymq.C14.qs_optimize_same_matrix
 #print axioms Ymq.C14.optMul_few_rows
+#print axioms Ymq.C14.block_product_rotation
 #print axioms Ymq.C14.lanczos_final
 #print axioms Ymq.C14.lanczos_final_total
